@@ -531,7 +531,8 @@ def run(ctx):
         "indels are written at their catalogued position (no left-normalisation through repeats)",
         "records whose sites receive more than two alternate copies (contradicting records) are not compared",
         "delins variants and structural (fusion/deletion) alleles are outside the property's variant kinds and are not planted",
-        "the '_' count at the anchor of an insertion is free (either reduced or not); total(m) - coverage[m] is fixed",
+        "the '_' count at the anchor of an insertion is free (each insertion copy may or may not reduce it); total(m) - coverage[m] is fixed",
+        "RefMismatchReexpressed is asserted for a called REF allele and one-base substitution ALTs of a one-base mismatching REF; a mismatching anchor base of an indel ALT is not required to become a substitution",
     ]
     # ---- MC
     if quick:
